@@ -617,7 +617,7 @@ impl Scenario for C04 {
         tier.pick(100_000, 6_000_000)
     }
     fn profiles() -> &'static [Profile] {
-        &[Profile::Release]
+        &[Profile::Dev, Profile::Release]
     }
     fn run(rng: &mut Rng, ctx: &mut Ctx) {
         let sw = Swarm::draw(rng);
